@@ -44,13 +44,14 @@ class Obligation:
 
 
 class St:
-    __slots__ = ('cells', 'iv', 'bv', 'rel')
+    __slots__ = ('cells', 'iv', 'bv', 'rel', 'fnn')
 
     def __init__(self):
         self.cells = {}
         self.iv = {}
         self.bv = {}
         self.rel = set()
+        self.fnn = set()      # ids of float values known not to be NaN
 
     def copy(self):
         s = St()
@@ -58,6 +59,7 @@ class St:
         s.iv = dict(self.iv)
         s.bv = dict(self.bv)
         s.rel = set(self.rel)
+        s.fnn = set(self.fnn)
         return s
 
 
@@ -100,7 +102,7 @@ class Interp:
 
     def body(self, id_):
         if id_ not in self.bodies:
-            b = self.f.bodies.get(id_)
+            b = self.f.bodies.get(id_) or self.f.aux_bodies.get(id_)
             self.bodies[id_] = Body(b) if b else None
         return self.bodies[id_]
 
@@ -137,7 +139,7 @@ class Interp:
         if t == 'bool':
             return self.mk_bool(st)
         if t == 'float':
-            return ('float', -INF, INF, True)
+            return ('float', -INF, INF, True, self.vid())
         if t in ('str',):
             return ('top', 'str')
         if t == 'ref' or t == 'ptr':
@@ -414,6 +416,7 @@ class Interp:
         b2 = s2.bv
         out.bv = {k: b for k, b in s1.bv.items() if b2.get(k) is b}
         out.rel = s1.rel & s2.rel if s1.rel is not s2.rel else set(s1.rel)
+        out.fnn = s1.fnn & s2.fnn
         memo = {}
         c1, c2 = s1.cells, s2.cells
         oc = dict(c1)
@@ -472,7 +475,9 @@ class Interp:
                 out.bv[n] = x
             return ('bool', n)
         if ka == 'float':
-            return ('float', min(a[1], b[1]), max(a[2], b[2]), a[3] or b[3])
+            na = a[3] and not (len(a) > 4 and a[4] in s1.fnn)
+            nb = b[3] and not (len(b) > 4 and b[4] in s2.fnn)
+            return ('float', min(a[1], b[1]), max(a[2], b[2]), na or nb)
         if ka == 'buf':
             if a[1] == b[1]:
                 return a
